@@ -113,7 +113,7 @@ ONE = T1 + "t1_propagate.<locals>._t1_one_graph"
 # node ids are only hashed and compared by this code: modelled as an opaque totally ordered sort (any such key type,
 # python str included); keeps string ordering out of the quantified goals
 R.untype("Nid")
-R.dictshape("T1Delta", {"op": "str", "id": "Un[Nid]"})
+R.keyrec("T1Delta", {"op": "str", "id": "Un[Nid]"})
 _SORTED_ITEMS = [    # facts about `sorted(acc.items(), key=kv[0])`, proved at loop entry from the sorted()/items() model
     "forall(m, 0 <= m < len(_iter), _iter[m][0] in acc and acc[_iter[m][0]] == _iter[m][1])",
     "forall((k, 'Un[Nid]'), k in acc, exists(m, 0 <= m < len(_iter), _iter[m][0] == k))",
@@ -151,7 +151,7 @@ R.contract(
 # z3 times out on re-establishing them across the Store-encoded appends; _match_keywords itself is proved both ways).
 # Node = the dataclass fields read here; attrs is a dict read only through .get("tags", []): a missing key is the same
 # as []; tags are strings (type invariant of the graph store: the isinstance(kw, str) filter is then always true).
-R.dictshape("T1Attrs", {"tags": "List[str]"})
+R.keyrec("T1Attrs", {"tags": "List[str]"})
 R.record("T1Node", {"id": "str", "label": "str", "attrs": "T1Attrs"})
 R.untype("NKey")      # the keys of g.nodes are only iterated (values()), never inspected
 R.objtype("T1Graph", {"nodes": "Dict[Un[NKey], T1Node]"})
